@@ -211,6 +211,9 @@ func runModelProp(prop, tier, replay string) {
 		_ = s.Stop(ctx)
 		env.Close()
 	}
+	if prop == "C14" && replay == "" {
+		remapScenarios(ctx, r, base.Fork("remap"))
+	}
 	if replay != "" {
 		if r.Violations() > 0 {
 			fmt.Println("replay: reproduced")
